@@ -274,7 +274,12 @@ func (c *Classifier) Normalize(in []byte) []byte {
 	}
 
 	prevLine := 1
-	buf.WriteString(c.dict.getWord(doc.Tokens[0].ID))
+	// An input starting with an empty line has an EOL as its first token; the
+	// loop below emits the line break when it reaches the first token of the
+	// next line, so writing the EOL itself here would add a second one.
+	if txt := c.dict.getWord(doc.Tokens[0].ID); txt != eol {
+		buf.WriteString(txt)
+	}
 	for _, t := range doc.Tokens[1:] {
 		// Only write out an EOL token that incremented the line
 		if t.Line == prevLine+1 {
